@@ -66,8 +66,8 @@ def handle (op : String) (req : Json) : R Json := do
     | none => pure (jObj [("rendered", jBool false)])
     | some rd =>
       let textOk := textHyp base rd.rows
-      -- the one part of `textHyp` that is a limit of the reader, not of the instrument: 16 characters of spot size
-      let spotOk := rd.rows.all (fun r => decide (r.spot.toList.length ≤ 16))
+      -- the one part of `textHyp` that is a limit of the reader, not of the instrument: 32 characters of spot size (U32 since 134845c)
+      let spotOk := rd.rows.all (fun r => decide (r.spot.toList.length ≤ 32))
       let truthOk := truthHyp a sel
       let hyp := truthOk && textOk
       -- how the caller holds the signal (array shape) and describes its clock (stamps / interval)
